@@ -293,7 +293,7 @@ def run_secured_fragments(params, known):
         if kind in kinds:
             return
         kinds.add(kind)
-        v = Violation(PROP, 'reassembly', kind, dict(), '%r: %s' % (case, detail)).as_dict()
+        v = Violation(params.get('prop', PROP), 'reassembly', kind, dict(), '%r: %s' % (case, detail)).as_dict()
         v['case'] = case
         violations.append(v)
     payload = bytes((i * 9 + 4) & 0xFF for i in range(60))
